@@ -32,6 +32,8 @@ func rulesC16(c *Ctx) {
 	c.vocabProblems("R1")
 	c.ruleSigsAfterSpent("R6")
 	c.c16LimitsAreConfigured()
+	R.Rule("R8", "the configured limits survive their own parsing: in the start-up code that builds the limits from the environment no later assignment overwrites a (sub)struct in which a limit was already stored", 1)
+	c.c16ConfigNotOverwritten()
 
 	// ---- R1
 	if sc := c.V.Schema; sc == nil {
@@ -383,4 +385,51 @@ func (c *Ctx) c16LimitsAreConfigured() {
 	if n == 0 {
 		R.Unresolved("R7", "writes of the mint's limits field", "none found")
 	}
+}
+
+// c16ConfigNotOverwritten: R8. configFromEnv fills the limits piece by piece; a whole-struct assignment that runs after
+// a limit was stored inside that struct silently resets it to 0 = "no limit".
+func (c *Ctx) c16ConfigNotOverwritten() {
+	R := c.R
+	f := c.P.Func("cmd/mint.configFromEnv")
+	if f == nil {
+		R.Trivial("R8", "cmd/mint", "limits built from the environment", "cmd/mint/mint.go", "no configFromEnv on this tree")
+		return
+	}
+	fk := c.P.FuncKey(f)
+	type st struct {
+		in   *ssa.Store
+		root ssa.Value
+		path []pathElem
+	}
+	var stores []st
+	for _, b := range f.Blocks {
+		for _, in := range b.Instrs {
+			if s, ok := in.(*ssa.Store); ok {
+				root, path := addrRoot(s.Addr)
+				if al, ok := root.(*ssa.Alloc); ok && strings.Contains(typeShort(c.P, al.Type()), "Limits") {
+					stores = append(stores, st{s, root, path})
+				}
+			}
+		}
+	}
+	o := c.P.OriginsOf(f)
+	ok, why := true, ""
+	for _, a := range stores {
+		for _, b := range stores {
+			if a.in == b.in || a.root != b.root || len(a.path) == 0 {
+				continue
+			}
+			// b writes a location that contains a's location (equal or shorter path)
+			if len(b.path) > len(a.path) || !isPrefix(b.path, a.path) {
+				continue
+			}
+			if reach, _ := o.ReachAvoiding(a.in, b.in, NewCut()); reach {
+				ok = false
+				why = "the value stored at " + c.P.InstrPos(a.in) + " is overwritten by the assignment at " + c.P.InstrPos(b.in)
+			}
+		}
+	}
+	R.Check("R8", fk, "limits parsed from the environment are not overwritten", c.P.Pos(f.Pos()), ok && len(stores) > 0,
+		"each limit stored while parsing the environment is still there when the configuration is returned", why)
 }
